@@ -278,6 +278,34 @@ export const REWRITES = {
     return [{ prog: { ...p2, decls: [...p2.decls, ...consts] }, hash32: true }];
   },
   "nest-unions": (prog) => [{ prog: mapProg(prog, (t) => (t.k === "union" && t.m.length >= 3 ? { ...t, m: [t.m[0], { k: "union", m: t.m.slice(1) }] } : t)), hash32: true }],
+  // {k:"a", ...same} | {k:"b", ...same}  <->  {k:"a"|"b", ...same}: the two spellings denote the same set of values
+  "merge-members-differing-in-one-literal": (prog) => {
+    let changed = false;
+    const p2 = mapProg(prog, (t) => {
+      if (t.k !== "union" || t.m.length < 2 || !t.m.every((m) => m.k === "object" && !hasParam(m))) return t;
+      const first = t.m[0];
+      const names = first.props.map((p) => p.name).join("\u0000");
+      if (!t.m.every((m) => m.props.map((p) => p.name).join("\u0000") === names && JSON.stringify(m.index || []) === JSON.stringify(first.index || []))) return t;
+      const differing = first.props.filter((p, i) => t.m.some((m) => JSON.stringify(m.props[i]) !== JSON.stringify(p)));
+      if (differing.length !== 1) return t;
+      const di = first.props.indexOf(differing[0]);
+      if (!t.m.every((m) => m.props[di].t.k === "lit" && m.props[di].opt === differing[0].opt)) return t;
+      changed = true;
+      return { ...first, props: first.props.map((p, i) => (i === di ? { ...p, t: { k: "union", m: t.m.map((m) => m.props[di].t) } } : p)) };
+    });
+    return changed ? [{ prog: p2, hash32: false }] : [];
+  },
+  "split-literal-union-property-into-members": (prog) => {
+    let changed = false;
+    const p2 = mapProg(prog, (t) => {
+      if (t.k !== "object" || hasParam(t)) return t;
+      const di = t.props.findIndex((p) => p.t.k === "union" && p.t.m.length >= 2 && p.t.m.every((x) => x.k === "lit"));
+      if (di < 0 || changed) return t;
+      changed = true;
+      return { k: "union", m: t.props[di].t.m.map((l) => ({ ...t, props: t.props.map((p, i) => (i === di ? { ...p, t: l } : p)) })) };
+    });
+    return changed ? [{ prog: p2, hash32: false }] : [];
+  },
   "factor-discriminated-union": (prog) => {
     // {k:"a",x}|{k:"b",y}  ->  branches behind aliases
     let n = 0;
@@ -366,7 +394,7 @@ function extraBases() {
       Alias("OptDisc", U(ObjT([Prop("t", L("a"), true), Prop("x", P("number"))]), ObjT([Prop("t", L("b")), Prop("y", P("number"))]))),
       Alias("TwoDisc", U(ObjT([Prop("t", L("a")), Prop("u", L("p")), Prop("x", P("number"))]), ObjT([Prop("t", L("a")), Prop("u", L("q")), Prop("x", P("string"))]), ObjT([Prop("t", L("b")), Prop("u", L("p"))]))),
     ],
-    [["A", Ref("Shape")], ["B", Ref("Colors")], ["C", Ref("Mixed")], ["D", Ref("Holder")], ["E", Tup([Ref("Same1"), Ref("Same2")])], ["F", Ref("OptDisc")], ["G", Ref("TwoDisc")], ["H", ArrT(U(Ref("Shape"), P("null")))]],
+    [["A", Ref("Shape")], ["B", Ref("Colors")], ["C", Ref("Mixed")], ["D", Ref("Holder")], ["E", Tup([Ref("Same1"), Ref("Same2")])], ["F", Ref("OptDisc")], ["G", Ref("TwoDisc")], ["H", ArrT(U(Ref("Shape"), P("null")))], ["I", U(ObjT([Prop("kind", L("a"))], [{ key: P("string"), val: P("string") }]), ObjT([Prop("kind", L("b"))], [{ key: P("string"), val: P("string") }]))], ["J", ObjT([Prop("kind", U(L("a"), L("b"))), Prop("n", P("number"), true)], [{ key: P("string"), val: U(P("string"), P("number")) }])], ["K", U(ObjT([Prop("t", L(1)), Prop("x", P("string"))]), ObjT([Prop("t", L(2)), Prop("x", P("string"))]))]],
     "optimisation triggers",
   );
   // discriminated unions whose members are intersections of named objects that both declare the discriminator
